@@ -36,7 +36,7 @@ func init() {
 		ID:    "C18",
 		Level: "exploration",
 		Rule: "arithmetic cases = (op in Add/AddUnsafe/Sub/SubUnsafe, A, B) over all ordered pairs of coin sets on a 3-denom alphabet, each denom absent or with an amount from " +
-			"{0,1,-1,2,MaxInt64-1,MaxInt64,MinInt64} (thorough adds -2, MinInt64+1, 2^62), plus seeded random sets of up to 6 coins over 10 denoms; " +
+			"{0,1,-1,2,MaxInt64-1,MaxInt64,MinInt64} (thorough adds -2, MinInt64+1, 2^62), plus seeded random sets of up to 6 coins over 11 denominations (all character classes ValidateDenom admits, one of MaxDenomLength); " +
 			"comparison cases = (helper, A, B) over all ordered pairs of valid sets on 3 denoms with amounts {1,2,3,MaxInt64-1,MaxInt64} plus random valid sets; parse cases = valid sets. " +
 			"non-trivial = (arithmetic) the operands share a denomination, or an operand holds a zero coin, or a panic is expected; (comparison) both sets non-empty and sharing a denomination; (parse) non-empty set; distinct by (kind, op, A, B)",
 		Run: run,
@@ -309,8 +309,13 @@ var (
 func viol(c *vf.Ctx, key string, w any, format string, args ...any) {
 	vkMu.Lock()
 	vk[key]++
+	n := vk[key]
 	vkMu.Unlock()
-	c.Violation(key, w, format, args...)
+	// vf keeps at most 25 witnesses per run over all keys: pass on the first three per key so that
+	// every key gets its replay files; the full per-key counts go to the log and the evidence counters.
+	if n <= 3 {
+		c.Violation(key, w, format, args...)
+	}
 }
 
 func logKeys(c *vf.Ctx) {
